@@ -125,11 +125,11 @@ func (k Keeper) WithdrawAllAvailable(ctx sdk.Context, owner string) (withdrawn s
 		toWithdraw = toWithdraw.Add(withdrawable)
 		k.Logger(ctx).Debug("withdraw all available data", "owner", owner, "vestingPool", vestingPool, "withdrawable", withdrawable,
 			"toWithdraw", toWithdraw)
-		if toWithdraw.IsPositive() {
+		if withdrawable.IsPositive() {
 			events = append(events, types.WithdrawAvailable{
 				Owner:           owner,
 				VestingPoolName: vestingPool.Name,
-				Amount:          toWithdraw.String() + denom,
+				Amount:          withdrawable.String() + denom,
 			})
 		}
 	}
